@@ -8,6 +8,16 @@
 //! by zero, `!` on none} is inserted at one position of one level. Variants put k non-ASCII
 //! characters (in a comment or in a string literal) on a line above everything else in every file.
 //!
+//! Statement layouts. In the family above every statement is written on one line, so the line of a
+//! `let` and the line of the operation on its right-hand side coincide. A second family separates
+//! them: the failing operations whose result can be stored {index out of range, overflow, division by
+//! zero, `!` on none} at every level and position (quick: three of the five positions) again, written as `let v =` ⏎ `<op>`, `let v =` ⏎
+//! `// comment` ⏎ `<op>`, `let v = {` ⏎ `<op>` ⏎ `}`, and as an assignment to a `var` declared on the
+//! line before: `w =` ⏎ `<op>` (thorough also `w = <op>` on one line, `w =` ⏎ `// comment` ⏎ `<op>`,
+//! `w = {` ⏎ `<op>` ⏎ `}`). The operator expression itself is always written on ONE line, so "the line
+//! of the operation that failed" is unambiguous: it is that line, not the line of the `let` / `w =`
+//! (the unchanged implementation reports exactly this line for all these layouts).
+//!
 //! Oracle: the generator knows by construction the line of the failing statement, the line of every
 //! call site and the name the VM gives each function (`<main>`, the unqualified function / method
 //! name, `<lambda>`): the traceback must be exactly
@@ -98,16 +108,64 @@ struct Built {
     src: Src,
     /// expected user frames, failing location first
     expected: Vec<(String, u32, String)>,
+    /// line of the `let` / assignment that stores the failing operation's result (0 for `panic`)
+    stmt_line: u32,
 }
+
+/// how the failing statement is laid out
+#[derive(Clone, Copy, PartialEq, Eq, Debug)]
+enum Lay {
+    /// `let v = <op>` (first family)
+    OneLine,
+    LetWrap,
+    LetWrapComment,
+    LetBlock,
+    AsgOneLine,
+    AsgWrap,
+    AsgWrapComment,
+    AsgBlock,
+}
+impl Lay {
+    fn name(self) -> &'static str {
+        match self {
+            Lay::OneLine => "let-one-line",
+            Lay::LetWrap => "let-wrapped",
+            Lay::LetWrapComment => "let-wrapped-after-comment",
+            Lay::LetBlock => "let-block",
+            Lay::AsgOneLine => "assign-one-line",
+            Lay::AsgWrap => "assign-wrapped",
+            Lay::AsgWrapComment => "assign-wrapped-after-comment",
+            Lay::AsgBlock => "assign-block",
+        }
+    }
+}
+
+/// layouts of the second family (failing operation on a later line than the `let` / assignment)
+fn layouts(tier: Tier) -> Vec<Lay> {
+    match tier {
+        Tier::Quick => vec![Lay::LetWrap, Lay::LetWrapComment, Lay::LetBlock, Lay::AsgWrap],
+        Tier::Thorough => vec![Lay::LetWrap, Lay::LetWrapComment, Lay::LetBlock, Lay::AsgOneLine, Lay::AsgWrap, Lay::AsgWrapComment, Lay::AsgBlock],
+    }
+}
+/// statement positions of the second family (quick: start of the body, after the call, inside the nested `if` block)
+fn layout_slots(tier: Tier) -> Vec<usize> {
+    tier.pick(vec![0, 2, 3], (0..NSLOTS).collect())
+}
+/// operations of the second family: those whose result can be stored (all but `panic`)
+const STORABLE_OPS: std::ops::Range<usize> = 1..5;
+/// the second family uses no non-ASCII prefix (that dimension is exhausted by the first family)
+const PLAIN: Variant = Variant { k: 0, form: Form::Comment, ch: 'é' };
 
 struct Builder<'a> {
     shape: &'a Shape,
     fail_level: usize,
     fail_slot: usize,
     op: usize,
+    lay: Lay,
     files: Vec<Vec<String>>,
     call_line: Vec<u32>,
     fail_line: u32,
+    stmt_line: u32,
 }
 
 impl Builder<'_> {
@@ -134,14 +192,43 @@ impl Builder<'_> {
     fn slot(&mut self, level: usize, s: usize, f: usize, ind: usize) {
         if level == self.fail_level && s == self.fail_slot {
             let x = format!("x{level}");
-            let line = match self.op {
-                0 => "panic(\"x\")".to_string(),
-                1 => format!("let v = [1, 2][{x} + 7]"),
-                2 => format!("let v = 9223372036854775807 + {x}"),
-                3 => format!("let v = 1 / ({x} - {x})"),
-                _ => "let v = nope()!".to_string(),
+            if self.op == 0 {
+                assert!(self.lay == Lay::OneLine);
+                self.fail_line = self.push(f, ind, "panic(\"x\")");
+                return;
+            }
+            // the operator expression: always on one line
+            let e = match self.op {
+                1 => format!("[1, 2][{x} + 7]"),
+                2 => format!("9223372036854775807 + {x}"),
+                3 => format!("1 / ({x} - {x})"),
+                _ => "nope()!".to_string(),
             };
-            self.fail_line = self.push(f, ind, &line);
+            let assign = matches!(self.lay, Lay::AsgOneLine | Lay::AsgWrap | Lay::AsgWrapComment | Lay::AsgBlock);
+            if assign {
+                self.push(f, ind, "var w = 0");
+            }
+            let head = if assign { "w =" } else { "let v =" };
+            match self.lay {
+                Lay::OneLine | Lay::AsgOneLine => {
+                    self.fail_line = self.push(f, ind, &format!("{head} {e}"));
+                    self.stmt_line = self.fail_line;
+                }
+                Lay::LetWrap | Lay::AsgWrap => {
+                    self.stmt_line = self.push(f, ind, head);
+                    self.fail_line = self.push(f, ind + 2, &e);
+                }
+                Lay::LetWrapComment | Lay::AsgWrapComment => {
+                    self.stmt_line = self.push(f, ind, head);
+                    self.push(f, ind + 2, "// the value");
+                    self.fail_line = self.push(f, ind + 2, &e);
+                }
+                Lay::LetBlock | Lay::AsgBlock => {
+                    self.stmt_line = self.push(f, ind, &format!("{head} {{"));
+                    self.fail_line = self.push(f, ind + 2, &e);
+                    self.push(f, ind, "}");
+                }
+            }
         }
     }
     /// statements of level `i` into file `f` at indentation `ind`
@@ -178,16 +265,18 @@ impl Builder<'_> {
     }
 }
 
-fn build(shape: &Shape, fail_level: usize, fail_slot: usize, op: usize, var: Variant) -> Built {
+fn build(shape: &Shape, fail_level: usize, fail_slot: usize, op: usize, lay: Lay, var: Variant) -> Built {
     let d = shape.levels.len();
     let mut b = Builder {
         shape,
         fail_level,
         fail_slot,
         op,
+        lay,
         files: vec![vec![]; FILES.len()],
         call_line: vec![0; d + 1],
         fail_line: 0,
+        stmt_line: 0,
     };
     let used: Vec<bool> = (0..FILES.len()).map(|f| f == 0 || shape.levels.iter().any(|l| l.1 == f)).collect();
     let body_ascii: String = std::iter::repeat_n('e', var.k.max(1)).collect();
@@ -248,7 +337,7 @@ fn build(shape: &Shape, fail_level: usize, fail_slot: usize, op: usize, var: Var
         }
     }
     files.push(("hh.abra".to_string(), "fn nope() -> option<int> {\n  .none\n}\n".to_string()));
-    Built { src: Src { files, main: "main.abra".into() }, expected }
+    Built { src: Src { files, main: "main.abra".into() }, expected, stmt_line: b.stmt_line }
 }
 
 fn shape_text(s: &Shape) -> String {
@@ -282,8 +371,10 @@ fn tier_depth(tier: Tier) -> usize {
     tier.pick(2, 3)
 }
 
-fn cases_per_shape(s: &Shape, nvar: usize) -> u64 {
-    ((s.levels.len() + 1) * NSLOTS * OPS.len() * nvar) as u64
+/// first family: (level, slot, op, non-ASCII variant); second family: (level, slot, storable op, layout)
+fn cases_per_shape(s: &Shape, nvar: usize, nlay_slots: usize, nlay: usize) -> u64 {
+    let levels = s.levels.len() + 1;
+    (levels * NSLOTS * OPS.len() * nvar + levels * nlay_slots * STORABLE_OPS.len() * nlay) as u64
 }
 
 impl Prop for C32 {
@@ -297,8 +388,8 @@ impl Prop for C32 {
         shapes(tier_depth(tier)).len()
     }
     fn expected_evaluations(&self, tier: Tier) -> Option<u64> {
-        let nv = variants(tier).len();
-        Some(shapes(tier_depth(tier)).iter().map(|s| cases_per_shape(s, nv)).sum())
+        let (nv, ns, nl) = (variants(tier).len(), layout_slots(tier).len(), layouts(tier).len());
+        Some(shapes(tier_depth(tier)).iter().map(|s| cases_per_shape(s, nv, ns, nl)).sum())
     }
     fn min_classes(&self) -> usize {
         5
@@ -329,25 +420,54 @@ impl Prop for C32 {
                         out.describe_case(&case_text);
                         out.evaluations += 1;
                         out.nontrivial_text(&case_text);
-                        let b = build(shape, level, slot, op, *var);
-                        run_one(out, &case_text, &b, OPS[op], var.k, my);
+                        let b = build(shape, level, slot, op, Lay::OneLine, *var);
+                        run_one(out, &case_text, &b, OPS[op], Lay::OneLine, var.k, my);
                     }
                 }
             }
         }
+        // second family (after the first, so that the case indices of the first are unchanged)
+        let lays = layouts(tier);
+        let lay_slots = layout_slots(tier);
+        for level in 0..=d {
+            for &slot in &lay_slots {
+                for op in STORABLE_OPS {
+                    for lay in &lays {
+                        let my = idx;
+                        idx += 1;
+                        if !out.begin_case(my) {
+                            continue;
+                        }
+                        let case_text = format!("C32 chain [{}] fail at level {level} slot {slot} op {} layout {}", shape_text(shape), OPS[op], lay.name());
+                        out.describe_case(&case_text);
+                        out.evaluations += 1;
+                        out.nontrivial_text(&case_text);
+                        let b = build(shape, level, slot, op, *lay, PLAIN);
+                        run_one(out, &case_text, &b, OPS[op], *lay, 0, my);
+                    }
+                }
+            }
+        }
+        assert_eq!(idx, cases_per_shape(shape, vars.len(), lay_slots.len(), lays.len()));
     }
     fn rule(&self, tier: Tier) -> String {
         format!(
             "every call chain <main> -> L1 .. Ld, d <= {}, each level a named function, member function or lambda (lambda defined in its caller's body; functions/methods in the caller's file or any later of 3 files), \
              x every (level, statement position) pair with {} positions per body (start, before the call, after the call, inside a nested if block, before the final expression) \
-             x failing operation {:?} x non-ASCII variants {:?} (k characters in a comment or string-literal line above all code of every file). \
+             x failing operation {:?} x non-ASCII variants {:?} (k characters in a comment or string-literal line above all code of every file); \
+             plus, for every level and the statement positions {:?} (numbered in the order above from 0), the storable failing operations {:?} x statement layouts {:?} in which the operator expression (always written on one line) stands on a later line than \
+             the `let` / assignment that stores its result (right-hand side wrapped after `=`, wrapped with a comment line in between, block-valued right-hand side; assignment to a `var` declared on the line before): \
+             the expected failing line is the line of the operator expression, not the line of the `let` / `w =`. \
              Expected traceback computed by the generator from the line numbers it emitted: failing file:line + function name, then the call-site file:line + function name of every active call, innermost first; \
              for unwrap-none one leading prelude.abra/unwrap frame is required and its line is not asserted. Function names asserted: <main>, unqualified fn/method name, <lambda>. \
              Every case is a distinct program and counts as non-trivial (a runtime error below at least the top-level frame).",
             tier_depth(tier),
             NSLOTS,
             OPS,
-            variants(tier).iter().map(|v| format!("{}x{:?}{:?}", v.k, v.ch, v.form)).collect::<Vec<_>>()
+            variants(tier).iter().map(|v| format!("{}x{:?}{:?}", v.k, v.ch, v.form)).collect::<Vec<_>>(),
+            layout_slots(tier),
+            &OPS[STORABLE_OPS],
+            layouts(tier).iter().map(|l| l.name()).collect::<Vec<_>>()
         )
     }
     fn assumptions(&self) -> Vec<String> {
@@ -355,11 +475,12 @@ impl Prop for C32 {
             "the property's 'random statement' is replaced by every statement position of every function of the chain".into(),
             "a callee in an earlier file than its caller (import cycle) is not generated".into(),
             "the line of the prelude's own frame for `!` on none is not asserted (depends on prelude.abra layout), only file and function name".into(),
+            "'the line of the operation that failed' is the line on which the failing operator's expression is written; the generator writes that expression on a single line, so its first token, the operator and its last token are all on that line (an operator expression that itself spans lines is not generated: the statement does not say which of its lines is meant)".into(),
         ]
     }
 }
 
-fn run_one(out: &mut UnitOut, case_text: &str, b: &Built, op: &str, k: usize, my: u64) {
+fn run_one(out: &mut UnitOut, case_text: &str, b: &Built, op: &str, lay: Lay, k: usize, my: u64) {
     let files_json: serde_json::Value =
         b.src.files.iter().map(|(n, t)| (n.clone(), serde_json::Value::String(t.clone()))).collect::<serde_json::Map<_, _>>().into();
     let exp_kind = if op == "unwrap-none" { "panic" } else { op };
@@ -397,7 +518,11 @@ fn run_one(out: &mut UnitOut, case_text: &str, b: &Built, op: &str, k: usize, my
             };
             let prelude_ok = op != "unwrap-none" || tb.len() == user.len() + 1;
             if kind == exp_kind && prelude_ok && user == &b.expected[..] {
-                out.class(&format!("match:{op}:frames{}", b.expected.len()));
+                if lay == Lay::OneLine {
+                    out.class(&format!("match:{op}:frames{}", b.expected.len()));
+                } else {
+                    out.class(&format!("match:{op}:{}", lay.name()));
+                }
                 if my % 211 == 0 {
                     out.sample(json!({"case": case_text, "files": files_json, "expected_traceback": exp_str, "observed": text}));
                 }
@@ -419,6 +544,9 @@ fn run_one(out: &mut UnitOut, case_text: &str, b: &Built, op: &str, k: usize, my
                     keys.push("cause:nonascii-above-shifts-line".into());
                     cls = "violation:line-shifted-by-nonascii-above";
                 }
+            } else if same_shape && b.stmt_line != b.expected[0].1 && user[0].1 == b.stmt_line && user[1..].iter().zip(&b.expected[1..]).all(|(o, e)| o.1 == e.1) {
+                keys.push("cause:line-of-enclosing-statement-instead-of-operation".into());
+                cls = "violation:line-of-the-let-or-assignment-instead-of-the-operation";
             } else if same_shape {
                 cls = "violation:wrong-line";
             }
